@@ -6,6 +6,7 @@ ID = "C04"
 MODULE = "Check.IoCheck"
 CASE_TYPE = "IOcase"
 CORR, ORACLE, HYP = "IOcorr", "C04oracle", "IOtrue"
+ORACLE_EXCUSING_KNOWN = "C04oracle_f19"
 K = 30
 DEN = 2 ** K
 RULE = ("random textgrids on a 2^-30 s grid mixing ordinary intervals, gaps and slivers of 1..50 ticks (threshold 1e-8 s = 10.74 "
@@ -59,6 +60,14 @@ def run(case):
         again = textgrid_io.getTextgridAsStr(_tgToDictionary(tg), "textgrid_json", case["blanks"], mn, mx, case["thr"])
         if again != txt:
             raise core.OffGrid("saving the same textgrid again (after a save with the other includeBlankSpaces setting) wrote different data")
+        # all four formats carry the same prepared data and the same (possibly overridden) span
+        ref = iogen.content_of_tgjson(txt)
+        for fmt, dec in (("json", iogen.content_of_json), ("short_textgrid", iogen.content_of_text), ("long_textgrid", iogen.content_of_text)):
+            c = dec(textgrid_io.getTextgridAsStr(_tgToDictionary(tg), fmt, case["blanks"], mn, mx, case["thr"]))
+            if (c["xmin"], c["xmax"]) != (ref["xmin"], ref["xmax"]):
+                raise core.OffGrid("%s file spans %r but textgrid_json %r for the same save" % (fmt, (c["xmin"], c["xmax"]), (ref["xmin"], ref["xmax"])))
+            if [(t["name"], t["entries"]) for t in c["tiers"]] != [(t["name"], t["entries"]) for t in ref["tiers"]]:
+                raise core.OffGrid("%s file holds other entries than textgrid_json for the same save" % fmt)
         return iogen.dtg_from_json(txt, lambda x: core.tk(x, sc))
     return core.run_guarded(f)
 
@@ -121,6 +130,9 @@ def _filled_lengths(t, mn, mx):
 
 
 def finding_match(case, r, kind, why, findings):
+    # a known finding covers one kind of failure only: the clause-by-clause oracle saying "not a partition"
+    if not why.startswith("oracle"):
+        return None
     for f in findings:
         m = f.get("matcher", {})
         if m.get("pred") == "all_intervals_below_threshold" and case["thr"] is not None and case["blanks"]:
